@@ -16,7 +16,7 @@ ENGINE = "sim"
 THOROUGH_SCALE = 1.0
 SERIAL = os.environ.get("VERIF_TIER") == "quick"   # heavily loaded machine: a forked pool is slower than one process
 TECHNIQUE = ("bounded exhaustive enumeration plus model-based generation (Hypothesis) of per-pool outcomes and delivery "
-             "orders over the real Cluster/Session/pools/connections on a deterministic simulated network; the fake "
+             "orders (classic pools: per connection, and again per retry) over the real Cluster/Session/pools/connections on a deterministic simulated network; the fake "
              "servers' own record of what they answered is the ground truth")
 RULE = ("A case is 1-4 fake nodes, one session (protocol 4/3 = one connection per host, protocol 2 = classic pool with "
         "2 connections), and per host a situation at the moment of the switch: pool open and the node answers the "
@@ -25,26 +25,39 @@ RULE = ("A case is 1-4 fake nodes, one session (protocol 4/3 = one connection pe
         "in flight (pool shut down or being replaced, depending on the conviction policy); pool without a connection "
         "(REMOTE host with connect_to_remote_hosts=False); connection died earlier (host down and reconnecting, or "
         "replacement connection being opened, the clock advanced by a generated amount); optionally a pooled connection is "
-        "killed after a successful switch (its replacement must select the keyspace) and a switch that reported an error is "
-        "retried once every node accepts the keyspace.  The switch is triggered by "
+        "killed after a successful switch (its replacement must select the keyspace).  On classic pools the host's "
+        "second connection may be given its own generated answer, so one pool can end a failed switch partly switched "
+        "(one connection has the keyspace, its sibling does not).  A switch that reported an error is retried up to "
+        "three times: 0-2 retries with generated per-connection answers (ok / InvalidRequest / server error; "
+        "connections that already have the keyspace answer synchronously inside the driver), then a retry that every "
+        "node accepts.  Besides the final outcome, at every release step the case checks that success has not been "
+        "reported while a live pooled connection still has its USE unanswered.  The switch is triggered by "
         "execute_async('USE ks'), execute('USE ks') or set_keyspace('ks') through a generated coordinator, nodes hold "
         "the pools' USE requests and the case releases them in a generated order; a schedule tape picks the runnable "
         "virtual thread at every choice point.  Non-trivial: >= 2 hosts in >= 2 distinct situations and the switch "
-        "reached the pools.  Distinct by case digest.")
+        "reached the pools (the per-connection / retry dimensions do not count towards non-triviality; labels "
+        "switch:/retry:pool-conns-answer-differently, retry:pool-partly-switched, retry:switched-conn-first|not-first "
+        "and retry1:/retry2:/retry:<outcome> show how often they were generated).  Distinct by case digest.")
 ASSUMPTIONS = ["network, clock, executor and event loop are simulated (sim/); Cluster, Session, pools, connections, "
                "ResponseFuture are the real classes",
                "the pools' _set_keyspace_for_all_conns and Session._set_keyspace_for_all_pools are wrapped by a recorder "
                "(call/callback log) that is used only to name the finding key, never for the verdict",
                "a hang is judged after every held request was answered and 3 virtual seconds (plus the client timeout) passed",
+               "a pooled connection that is open, not defunct, not closed by the peer and whose USE the fake node still holds "
+               "has not selected the keyspace; reporting success at that moment violates 'every pooled connection the "
+               "session uses for a later request has that keyspace' (nothing stops the next request from borrowing it)",
+               "which connection of a classic pool is 'first' is read from the pool's public get_connections() order",
                "pre-emption at blocking operations (enumeration, 'blocking' part) / at every lock operation ('locks' part)"]
 LEVEL_TEXT = ("protocol 4, execute_async: exhaustive over <= 2 hosts x 8 situations x 2 release orders x 2 conviction "
               "policies (quick: plus 3 hosts with the default conviction policy and reverse release order; thorough: 3 hosts "
-              "complete); sampled beyond that (4 hosts, protocol 2/3, blocking triggers, client timeout, schedules)")
+              "complete); sampled beyond that (4 hosts, protocol 2/3, per-connection answers inside a classic pool, generated "
+              "retry scripts, blocking triggers, client timeout, schedules)")
 
 KS = "ks"
 USE_USER = "USE ks"            # what Session.set_keyspace('ks') sends
 USE_POOL = 'USE "ks"'          # what Connection.set_keyspace_async/_blocking send
 ANSWERS = ["ok", "invalid", "error", "die"]
+RETRY_ANSWERS = ["ok", "ok", "invalid", "error"]
 PRES = ["open", "closed", "dying", "noconn", "died_earlier"]
 SITUATIONS = [["open", "ok"], ["open", "invalid"], ["open", "error"], ["open", "die"], ["closed", "ok"],
               ["dying", "ok"], ["noconn", "ok"], ["died_earlier", "ok"]]
@@ -63,6 +76,11 @@ def s_case(gran):
         "order": st.lists(st.integers(0, 5), max_size=6),
         "kill_after": st.sampled_from([None, 0, 1, 2, 3]),
         "retry": st.booleans(),
+        # classic (protocol 1/2) pools: the host's second connection may answer differently from the first
+        "conn2": st.lists(st.sampled_from([None, None, "ok", "invalid", "error", "die"]), max_size=4),
+        # answers (first, second connection; per host) during the retries that precede the final all-accepting retry
+        "retry_scripts": st.lists(st.lists(st.tuples(st.sampled_from(RETRY_ANSWERS), st.sampled_from(RETRY_ANSWERS)).map(list),
+                                           min_size=4, max_size=4), max_size=2),
         "tape": st.lists(st.integers(0, 3), max_size=30 if gran == "locks" else 10),
         "gran": st.just(gran),
     })
@@ -113,7 +131,9 @@ def _run(case, ctx, sim):
     addrs = [S.addr(i) for i in range(n)]
     pool_class = "HostConnection" if pv >= 3 else "HostConnectionPool"
     stt = {"armed": False, "pre_conns": set(), "answered": set(), "in_switch": False}
-    script = dict((addrs[i], hosts[i][1]) for i in range(n))
+    conn2 = case.get("conn2") or []
+    # per host: [answer of the pool's first connection, answer of its other connections (classic pools only)]
+    script = dict((addrs[i], [hosts[i][1], (conn2[i] if i < len(conn2) and conn2[i] else hosts[i][1])]) for i in range(n))
 
     def on_request(node, conn, req):
         if conn.is_control_connection:
@@ -207,12 +227,35 @@ def _history(case, ctx, sim, cluster, session, policy, addrs, script, stt, calls
         sim.advance(case["t_before"])
     stt["pre_conns"] = set(c.sim_id for c in net.conns if not c.is_closed and not c.is_defunct)
     stt["armed"] = True
+    rank = {}
+
+    def rerank():
+        # position of every pooled connection in its pool's list (= the order the pool walks them)
+        rank.clear()
+        for a in addrs:
+            for j, c in enumerate(S.pool_connections(session, a)):
+                rank[c.sim_id] = j
+
+    def note_mixed(tag):
+        # classic pools only: connections of ONE pool differ (in what they will answer / in whether they already have ks)
+        for i, a in enumerate(addrs):
+            conns = [c for c in S.pool_connections(session, a) if not c.is_closed and not c.is_defunct]
+            if len(conns) >= 2:
+                if len(set(script[a][min(rank.get(c.sim_id, 0), 1)] for c in conns)) > 1:
+                    ctx.label(tag + ":pool-conns-answer-differently")
+                has = [c.keyspace == KS for c in conns]
+                if any(has) and not all(has):
+                    ctx.label(tag + ":pool-partly-switched")
+                    ctx.label(tag + (":switched-conn-first" if has[0] else ":switched-conn-not-first"))
+    rerank()
     for i, (pre, _ans) in enumerate(hosts):
         if pre == "dying":
             for c in S.pool_connections(session, addrs[i]):
                 net.server_close(c)
 
     def attempt(first):
+        note_mixed("switch" if first else "retry")
+        early = []
         # ---- trigger
         k = case["coord"] % n
         policy.order = addrs[k:] + addrs[:k]
@@ -249,13 +292,22 @@ def _history(case, ctx, sim, cluster, session, policy, addrs, script, stt, calls
             held = [(nd, c, r) for (nd, c, r) in U.all_held(net) if r.get("query") == USE_POOL]
             if not held:
                 break
+            # ---- oracle 3a: success is not reported while a live pooled connection has not answered its USE yet
+            if not early and done() and outcome()[0] == "ok":
+                waiting = [c for (nd, c, r) in held if not (c.is_closed or c.is_defunct or c.srv_closed)
+                           and c.keyspace != KS and any(c is x for x in S.pool_connections(session, nd.address))]
+                if waiting:
+                    early.append(1)
+                    ctx.fail(["C20.applied", "use-outstanding", pool_class],
+                             "the switch reported success while pooled connection(s) %r (keyspace %r) have not answered "
+                             "their USE yet; answers so far %r" % (waiting, [c.keyspace for c in waiting], delivered))
             idx = (order[step % len(order)] if order else 0) % len(held)
             node, conn, req = held[idx]
             for j, (_c, r) in enumerate(node.held):
                 if r is req:
                     del node.held[j]
                     break
-            ans = script[node.address]
+            ans = script[node.address][min(rank.get(conn.sim_id, 0), 1)]
             if conn.is_closed or conn.is_defunct or conn.srv_closed:
                 # the client already gave up on this connection (e.g. its pool shut down because a sibling failed):
                 # whatever the node would answer now is never seen
@@ -325,17 +377,22 @@ def _history(case, ctx, sim, cluster, session, policy, addrs, script, stt, calls
 
     kind, failures, delivered = attempt(True)
     if kind == "error" and case.get("retry"):
-        # the application retries the same switch a little later; by now every node knows the keyspace
+        # the application retries the same switch a little later, up to three times: first with generated per-connection
+        # answers (some connections may reject it again, others already have the keyspace), finally every node accepts it
         ctx.label("retried-after-error")
-        sim.advance(0.5)
-        S.drain_held(sim)
-        for a in addrs:
-            script[a] = "ok"
-        stt["pre_conns"] = set(c.sim_id for c in net.conns if not c.is_closed and not c.is_defunct)
-        stt["answered"] = set()
-        del calls[:], cb_order[:], switches[:]
-        kind, failures, delivered = attempt(False)
-        ctx.label("retry:" + kind)
+        for nth, rs in enumerate(list(case.get("retry_scripts") or []) + [None]):
+            if kind != "error":
+                break
+            sim.advance(0.5)
+            S.drain_held(sim)
+            for i, a in enumerate(addrs):
+                script[a] = ["ok", "ok"] if rs is None else list(rs[i])
+            stt["pre_conns"] = set(c.sim_id for c in net.conns if not c.is_closed and not c.is_defunct)
+            stt["answered"] = set()
+            rerank()
+            del calls[:], cb_order[:], switches[:]
+            kind, failures, delivered = attempt(False)
+            ctx.label("retry%d:%s" % (nth + 1, kind) if rs is not None else "retry:" + kind)
     if kind != "ok":
         return
 
